@@ -104,6 +104,9 @@ func cmdTrie(args []string) string {
 			continue
 		}
 		switch op[0] {
+		case 'Y': // go on with a copy of the trie (alias_trie.Copy, used for the context of generic functions)
+			tr = at.Copy(tr)
+			out = append(out, "ok")
 		case 'I':
 			f := strings.SplitN(op[1:], "=", 2)
 			v, _ := strconv.Atoi(f[1])
